@@ -410,6 +410,19 @@ CallOut do_call(Side& s, const std::vector<std::string>& w) {
         r.err = em->section(s.code.sections()[size_t(a)]);
       }
     }
+  } else if (op == "cpool" && w.size() == 4) {          // cpool <labelId> <item size 1..32> <count>: embed_const_pool of `count` constants
+    if (!num(w[1], a) || !num(w[2], b) || !num(w[3], c)) { r.bad_line = true; return r; }
+    Arena arena(4096);
+    ConstPool pool(arena);
+    size_t isz = size_t(b);
+    if (isz != 1 && isz != 2 && isz != 4 && isz != 8 && isz != 16 && isz != 32) { r.bad_line = true; return r; }
+    for (int64_t i = 0; i < c && i < 16; i++) {
+      uint8_t item[32];
+      for (size_t k = 0; k < 32; k++) item[k] = uint8_t(0xA0 + i + k);
+      size_t off;
+      (void)pool.add(item, isz, Out(off));
+    }
+    r.err = em->embed_const_pool(Label(uint32_t(a)), pool);
   } else if (op == "comment" && w.size() == 2) {
     r.err = em->comment(w[1].data(), w[1].size());
   } else if (op == "finalize") {
